@@ -93,6 +93,26 @@ func (e *Exec) libModel(st *State, callee *ssa.Function, cc *ssa.CallCommon, arg
 		e.assume(st, and(e.le(e.sc.idxLit(0), n), e.le(n, "(s-len "+dstv.S+")"), imp(fmt.Sprintf("(not (= (i-tag %s) 0))", errv.S), eq(n, e.sc.idxLit(0)))))
 		set(Val{T: resT, Tup: []Val{{T: tInt, S: n}, errv}})
 		return true, true, nil
+	case "(*crypto/tls.Config).Clone":
+		// assumed: Clone returns a fresh Config whose (exported and unexported) fields equal the receiver's;
+		// nil receiver gives nil
+		used()
+		ct := cc.Args[0].Type().Underlying().(*types.Pointer).Elem()
+		u := ct.Underlying().(*types.Struct)
+		ref := e.allocRef(st)
+		for i := 0; i < u.NumFields(); i++ {
+			k, srt := e.heapKey(ct, i)
+			m := e.memGet(st, k, srt)
+			e.memSet(st, k, srt, fmt.Sprintf("(store %s %s (select %s %s))", m, ref, m, args[0].S))
+		}
+		set(Val{T: resT, S: e.sc.define("clone", "Int", ite(eq(args[0].S, "0"), "0", ref))})
+		return true, true, nil
+	case "crypto/x509.NewCertPool", "crypto/tls.Client":
+		used()
+		r := e.freshVal(st, "newobj", resT)
+		e.assume(st, fmt.Sprintf("(not (= %s 0))", r.S))
+		set(r)
+		return true, true, nil
 	case "bytes.NewBuffer":
 		// model: a Buffer is a heap object whose field buf holds the unread bytes (off == 0)
 		used()
@@ -302,6 +322,13 @@ func (e *Exec) libModel(st *State, callee *ssa.Function, cc *ssa.CallCommon, arg
 		e.assume(st, and(e.le(e.sc.idxLit(-1), r.S), e.lt(r.S, "(str-len "+args[0].S+")")))
 		if e.mode == ModeBV {
 			e.assume(st, or(eq(r.S, e.sc.idxLit(-1)), e.le(e.add(r.S, "(str-len "+args[len(args)-1].S+")"), "(str-len "+args[0].S+")")))
+		}
+		if c, ok := cc.Args[len(cc.Args)-1].(*ssa.Const); ok && (name == "strings.Index" || name == "strings.LastIndex") {
+			if sep := constantString(c); len(sep) == 1 {
+				// the separator is found at the reported position
+				at := fmt.Sprintf("(select (str-arr %s) %s)", args[0].S, e.add("(str-off "+args[0].S+")", r.S))
+				e.assume(st, imp(not(eq(r.S, e.sc.idxLit(-1))), eq(at, e.sc.byteLit(int(sep[0])))))
+			}
 		}
 		set(r)
 		return true, true, nil
